@@ -154,6 +154,11 @@ Proof. intros ops r'. apply reno_window_ge_mss. exact reno_new_ge_mss. Qed.
 Theorem tcp_cwnd_positive : forall s, tcp_reachable s -> 0 < cc_window (s_congestion_controller s).
 Proof. intros s R. apply cc_window_pos. apply (li_cc s (reachable_inv s R)). Qed.
 
+Theorem tcp_rto_bounds : forall s,
+  tcp_reachable s ->
+  0 < rtte_retransmission_timeout (s_rtte s) <= tcp_RTTE_MAX_RTO * 1000.
+Proof. intros s R. apply rtte_timeout_bounds. apply (li_rtte s (reachable_inv s R)). Qed.
+
 (* ------------------------------------------------------------------------------------------ *)
 (* non-vacuity                                                                                  *)
 (* ------------------------------------------------------------------------------------------ *)
